@@ -1,7 +1,7 @@
 (* C16 — Compiled bytecode behaves like the tree-walking evaluator.
    Property theorems only; proofs are [exact <lemma of CompileProofs>]. *)
 From Coq Require Import ZArith NArith List String.
-From EvyV Require Import Base Bytecode SymTab Vm VmProofs Compile CompileSem CompileProofs CompileWfProofs CompileStmtProofs CompileJumpProofs CompileHoleProofs CompileCtlProofs CompileSemProofs.
+From EvyV Require Import Base Bytecode SymTab Vm VmProofs Compile CompileSem CompileProofs CompileWfProofs CompileStmtProofs CompileJumpProofs CompileHoleProofs CompileCtlProofs CompileSemProofs CompileSymProofs CompileLocProofs CompileCoverProofs.
 Import ListNotations.
 Open Scope list_scope.
 
@@ -51,10 +51,16 @@ Print Assumptions C16_compile_dot_assign_unbalanced_before_fix.
 
 (* ---------- the expression fragment is compiled correctly ---------- *)
 (* For every expression built from number/bool/string literals, array
-   literals `[e1 e2 …]` (nested), global variables, unary - and !, the binary
-   operators on numbers and strings, ==/!= and index reads `a[i]` on strings
-   (by code point) and arrays (negative indices count from the end; an index
-   error leaves eval_expr undefined)  (efrag), compiled from any compiler state: wherever the emitted
+   literals `[e1 e2 …]` (nested), map literals `{k1:e1 k2:e2 …}` (no key twice:
+   len(Pairs) = len(Order); the value is the list of pairs in source order, as
+   OpMap rebuilds it), global variables, unary - and !, the binary
+   operators on numbers and strings, array concatenation `a + b` and
+   repetition `a * n` (a bad count is an error: undefined), ==/!= as
+   value.Equals (arrays and maps structurally), slices `x[a:b]` of strings
+   and arrays (missing bounds are OpNone) and index reads `a[i]` on strings
+   (by code point), arrays (negative indices count from the end) and maps
+   (`m[k]` with a string key; an index error or a missing key leaves eval_expr
+   undefined)  (efrag), compiled from any compiler state: wherever the emitted
    segment is placed in a program whose constant table starts with the
    compiler's constants, running the VM model from the segment's first
    instruction executes exactly the segment and leaves the stack as it was
@@ -112,7 +118,7 @@ Print Assumptions C16_compile_correct_straightline.
    `for x := range iterable` — and `for range iterable` without loop variable,
    anywhere — over the elements of an array, the characters of a string or the
    keys of a map, counted like the VM with a number starting at 0) and `break` (inside a loop only: nb_stmt), arbitrarily nested, all expressions in efrag
-   (_partial: no loop variables inside blocks, no block-local declarations, no maps / slices / element stores).  The boolean of a result of exec_l says that a break is
+   (_partial: no loop variables inside blocks, no block-local declarations, no element stores `a[i] = e` / `m[k] = e`).  The boolean of a result of exec_l says that a break is
    under way; the innermost loop ends it.  The VM keeps the state of a range
    loop (index, step, stop) on the operand stack: the simulation carries the
    stack `base` below the statement, and OpDrop removes the state at the exit
@@ -142,6 +148,77 @@ Theorem C16_compile_correct_ctl_partial : forall (p : slist) (st : cstate) (fuel
                           nth_error (globals s) (N.to_nat (sidx y)) = Some v.
 Proof. exact compile_correct_ctl. Qed.
 Print Assumptions C16_compile_correct_ctl_partial.
+
+(* ---------- … with block-local variables ---------- *)
+(* Fragment lpfrag: like psfrag, but declarations `x := e` and for loops WITH a
+   loop variable may stand anywhere — at top level (the compiler makes the
+   variable a global) and inside the blocks of if / else-if / else, while and
+   for (the compiler makes it a LOCAL of the block's scope and gives it a slot
+   of the VM's locals area; slots are reused once a block is closed) —, and
+   assignments `x = e` go to whatever the name resolves to.  Expressions are
+   in efrag and read globals and locals (_partial: no element
+   stores `a[i] = e` / `m[k] = e` — Vm.v has value semantics for arrays and
+   maps, its OpSetIndex only checks —, no function calls, hence no call frames).  The semantics lx_l
+   (CompileSem.v) is the fuel-indexed big-step semantics of before over an
+   environment WITH BLOCK SCOPES: a list of frames, innermost first, the last
+   one the globals; a block pushes an empty frame and pops it at its end (also
+   when a break leaves it); `x := e` binds in the innermost frame, `x = e`
+   updates the innermost frame that has x, a loop variable lives in the frame
+   of the block around the loop's body (declared once, before the first
+   round, set in every round — like the compiler, which defines it in a scope
+   of its own around the body's).  For every such program: if the compiler
+   succeeds and the semantics is defined for SOME fuel, the VM model started
+   by NewVM runs to the end of the code, halts there with an empty operand
+   stack, and every global holds the value the semantics gives it.
+   Proof (CompileLocProofs.v): the simulation relation RELs maps every frame
+   of the environment to one scope of the compiler's symbol table (the
+   compile-time scope stack, replayed by the layout judgment LY) and says that
+   each VISIBLE name's slot — a global slot or a slot of the locals area —
+   holds the frame's value.  A store to one name keeps the relation for all
+   others because slots of simultaneously visible names are distinct
+   (NOSHARE, from SymTabProofs.Inv: visible_no_sharing of C17); a slot reused
+   by a later block is dead in the environment by then.  The stack guard
+   counts the locals area: LocalCount + the deepest statement fit the stack. *)
+Theorem C16_compile_correct_locals_partial : forall (p : slist) (st : cstate) (fuel : nat) (env' : senv),
+  lpfrag p = true -> compile p = COk st -> lx_l fuel p [[]] = Some (env', false) ->
+  (st_local_count (csym st) + ldepth p <= Gen.Opcodes.StackSize)%N ->
+  let prog := program_of (bytecode_of st) in
+  exists s, reaches prog (vm_init prog) s /\
+            vm_step prog s = Halted s /\ ostack s = [] /\
+            forall n y v, st_resolve n (csym st) = Some y -> slook n env' = Some v ->
+                          nth_error (globals s) (N.to_nat (sidx y)) = Some v.
+Proof. exact compile_correct_locals. Qed.
+Print Assumptions C16_compile_correct_locals_partial.
+
+(* ---------- how much of the compiler's input the fragment is ---------- *)
+(* EVERY program the compiler accepts lies in the fragment lfrag, unless it has
+   an element store `a[i] = e` / `m[k] = e`.  [plain_slist] (CompileSem.v)
+   says: no assignment whose target is an index expression — and two shapes
+   the parser never produces: a map literal with a key twice (len(Pairs) <>
+   len(Order); "duplicated map key" is a parse error) and a block as a
+   statement of its own.  (Function calls, typed declarations, `m.k`, and / or
+   … have no translation at HEAD: C16_compile_rejects_unsupported.) *)
+Theorem C16_compile_covered : forall (p : slist) (st : cstate),
+  compile p = COk st -> plain_slist p = true -> lfrag_slist p = true.
+Proof. exact compile_covered. Qed.
+Print Assumptions C16_compile_covered.
+
+(* … hence compile_correct_locals for every accepted program without element
+   stores (_partial: element stores — Vm.v has value semantics for arrays and
+   maps, its OpSetIndex only checks —; nb_slist: no break outside a loop, a
+   parse error; termination without run-time error and the stack guard as
+   before). *)
+Theorem C16_compile_correct_plain_partial : forall (p : slist) (st : cstate) (fuel : nat) (env' : senv),
+  compile p = COk st -> plain_slist p = true -> nb_slist p = true ->
+  lx_l fuel p [[]] = Some (env', false) ->
+  (st_local_count (csym st) + ldepth p <= Gen.Opcodes.StackSize)%N ->
+  let prog := program_of (bytecode_of st) in
+  exists s, reaches prog (vm_init prog) s /\
+            vm_step prog s = Halted s /\ ostack s = [] /\
+            forall n y v, st_resolve n (csym st) = Some y -> slook n env' = Some v ->
+                          nth_error (globals s) (N.to_nat (sidx y)) = Some v.
+Proof. exact compile_correct_plain. Qed.
+Print Assumptions C16_compile_correct_plain_partial.
 
 (* ---------- the compiler's output is well formed (straight-line fragment) ---------- *)
 (* For every top-level program made of declarations `x := e` and assignments
@@ -188,8 +265,10 @@ Print Assumptions C16_compile_wf_large_before_fix.
    LOCAL of the block's scope —, assignments `x = e` to globals and locals,
    if / else-if / else chains, while, break, `for range …` without a loop
    variable — arbitrarily nested, with all expressions in the expression
-   fragment efrag (reads of globals and locals, array literals, index reads;
-   _partial: no maps / slices / element stores, no function calls).  For every such program: if the compiler
+   fragment efrag (reads of globals and locals, array and map literals, index reads, slices;
+   element stores `a[i] = e` / `m[k] = e` are in this fragment: for WF they are
+   three expressions and OpSetIndex; by C17_compile_wf_all the fragment is
+   every program the compiler accepts).  For every such program: if the compiler
    succeeds and leaves no pending break (a break outside a loop, which the
    parser rejects), its output satisfies WF with LocalCount = the
    nestedMaxIndex of the compiler's root table:
@@ -223,7 +302,7 @@ Theorem C16_compile_vm_safe_ctl_partial : forall (p : slist) (st : cstate),
     match vm_step prog s with
     | Running _ | Failed _ => True
     | Halted s' => ip s' = N.of_nat (List.length (pcode prog)) /\ sp_of s' = plcount prog
-    | Crashed c => c = CType \/ (repeat_guarded = false /\ c = CHost)
+    | Crashed c => c = CType
     end.
 Proof.
   intros p st HF HC HB prog. apply wf_vm_safe_partial.
@@ -496,6 +575,63 @@ Example C16_ex_foriter0_defined :
   end.
 Proof. vm_compute. repeat split; try reflexivity. discriminate. Qed.
 
+(* m := {a:1 b:2}; x := m["b"] + {c:5}["c"]; t := ""; for k := range m: t = t + k end
+   -- x = 7, t = "ab" (map literals are in efrag; m[k] goes through index_value) *)
+Definition ex_map : slist :=
+  let num k := ENum (float_of_Z k) in
+  SCons (SDecl (s_ "m") (EMap (PCons (s_ "a") (num 1%Z) (PCons (s_ "b") (num 2%Z) PNil)) 2%Z))
+ (SCons (SDecl (s_ "x") (EBin BPlus TNum TNum (EIndex (EVar (s_ "m")) (EStr (s_ "b")))
+                                             (EIndex (EMap (PCons (s_ "c") (num 5%Z) PNil) 1%Z) (EStr (s_ "c")))))
+ (SCons (SDecl (s_ "t") (EStr (s_ "")))
+ (SCons (SForIter (Some (s_ "k")) TMap (EVar (s_ "m"))
+          (SCons (SAssign (EVar (s_ "t")) (EBin BPlus TStr TStr (EVar (s_ "t")) (EVar (s_ "k")))) SNil)) SNil))).
+
+Example C16_ex_map_defined :
+  psfrag ex_map = true /\ lpfrag ex_map = true /\ (ldepth ex_map <= Gen.Opcodes.StackSize)%N /\
+  match exec_l 40 ex_map (fun _ => None) with
+  | Some (env, false) => env (s_ "x") = Some (VNum (float_of_Z 7)) /\ env (s_ "t") = Some (VStr [97%N; 98%N]) /\
+                         env (s_ "m") = Some (VMap [([97%N], VNum (float_of_Z 1)); ([98%N], VNum (float_of_Z 2))])
+  | _ => False
+  end /\
+  match compile ex_map with
+  | COk st => match vm_run 4000 (program_of (bytecode_of st)) (vm_init (program_of (bytecode_of st))) with
+              | FHalted s => nth_error (globals s) 1 = Some (VNum (float_of_Z 7)) /\ nth_error (globals s) 2 = Some (VStr [97%N; 98%N]) /\ ostack s = []
+              | _ => False
+              end
+  | CErr _ => False
+  end.
+Proof. vm_compute. repeat split; try reflexivity. discriminate. Qed.
+
+(* a := [1 2 3]; b := a[1:] + [9] * 2; s := "hello"[1:3]; q := a[:2] == [1 2]; r := {x:a} == {x:[1 2 3]}
+   -- b = [2 3 9 9], s = "el", q = true, r = true (slices, concatenation, repetition, structural ==) *)
+Definition ex_slice : slist :=
+  let num k := ENum (float_of_Z k) in
+  let arr3 a b c := EArr (ECons a (ECons b (ECons c ENil))) in
+  SCons (SDecl (s_ "a") (arr3 (num 1%Z) (num 2%Z) (num 3%Z)))
+ (SCons (SDecl (s_ "b") (EBin BPlus TArr TArr (ESlice (EVar (s_ "a")) (OSome (num 1%Z)) ONoneE)
+                                             (EBin BStar TArr TNum (EArr (ECons (num 9%Z) ENil)) (num 2%Z))))
+ (SCons (SDecl (s_ "s") (ESlice (EStr (s_ "hello")) (OSome (num 1%Z)) (OSome (num 3%Z))))
+ (SCons (SDecl (s_ "q") (EBin BEq TArr TArr (ESlice (EVar (s_ "a")) ONoneE (OSome (num 2%Z))) (EArr (ECons (num 1%Z) (ECons (num 2%Z) ENil)))))
+ (SCons (SDecl (s_ "r") (EBin BEq TMap TMap (EMap (PCons (s_ "x") (EVar (s_ "a")) PNil) 1%Z)
+                                           (EMap (PCons (s_ "x") (arr3 (num 1%Z) (num 2%Z) (num 3%Z)) PNil) 1%Z))) SNil)))).
+
+Example C16_ex_slice_defined :
+  psfrag ex_slice = true /\ lpfrag ex_slice = true /\ (ldepth ex_slice <= Gen.Opcodes.StackSize)%N /\
+  match exec_l 40 ex_slice (fun _ => None) with
+  | Some (env, false) => env (s_ "b") = Some (VArr [VNum (float_of_Z 2); VNum (float_of_Z 3); VNum (float_of_Z 9); VNum (float_of_Z 9)]) /\
+                         env (s_ "s") = Some (VStr [101%N; 108%N]) /\ env (s_ "q") = Some (VBool true) /\ env (s_ "r") = Some (VBool true)
+  | _ => False
+  end /\
+  match compile ex_slice with
+  | COk st => match vm_run 4000 (program_of (bytecode_of st)) (vm_init (program_of (bytecode_of st))) with
+              | FHalted s => nth_error (globals s) 2 = Some (VStr [101%N; 108%N]) /\ nth_error (globals s) 3 = Some (VBool true) /\
+                             nth_error (globals s) 4 = Some (VBool true) /\ ostack s = []
+              | _ => False
+              end
+  | CErr _ => False
+  end.
+Proof. vm_compute. repeat split; try reflexivity. discriminate. Qed.
+
 (* a break outside a loop is outside the fragment *)
 Example C16_ex_break_outside : psfrag (SCons SBreak SNil) = false.
 Proof. reflexivity. Qed.
@@ -550,6 +686,64 @@ Example C16_ex_locals_fragment :
   end.
 Proof. vm_compute. repeat split; reflexivity. Qed.
 
+(* the scoped semantics on ex_locals (block-local y, z / w sharing a slot, loop
+   variable i inside the while body), and a loop variable nested in a for body
+   with a shadowing declaration and a break:
+   t := 0
+   for i := range 3
+     x := i * 10                      // local of the body
+     for j := range [1 2 3]           // loop variable: local
+       if j == 3: break end
+       x := x + j                     // a NEW x in the inner body (shadows), dies with it
+       t = t + x
+     end
+     t = t + x                        // the outer x, untouched
+   end                                // t = (1+2) + 0 + (11+12) + 10 + (21+22) + 20 = 99 *)
+Definition ex_nested : slist :=
+  let num k := ENum (float_of_Z k) in
+  let tadd e := SAssign (EVar (s_ "t")) (EBin BPlus TNum TNum (EVar (s_ "t")) e) in
+  SCons (SDecl (s_ "t") (num 0%Z))
+ (SCons (SForStep (Some (s_ "i")) ONoneE (num 3%Z) ONoneE
+          (SCons (SDecl (s_ "x") (EBin BStar TNum TNum (EVar (s_ "i")) (num 10%Z)))
+          (SCons (SForIter (Some (s_ "j")) TArr (EArr (ECons (num 1%Z) (ECons (num 2%Z) (ECons (num 3%Z) ENil))))
+                    (SCons (SIf (EBin BEq TNum TNum (EVar (s_ "j")) (num 3%Z)) (SCons SBreak SNil) CNil NoElse)
+                    (SCons (SDecl (s_ "x") (EBin BPlus TNum TNum (EVar (s_ "x")) (EVar (s_ "j"))))
+                    (SCons (tadd (EVar (s_ "x"))) SNil))))
+          (SCons (tadd (EVar (s_ "x"))) SNil)))) SNil).
+
+Example C16_ex_locals_defined :
+  lpfrag ex_locals = true /\
+  match compile ex_locals with
+  | COk st => (st_local_count (csym st) + ldepth ex_locals <= Gen.Opcodes.StackSize)%N /\
+      match vm_run 2000 (program_of (bytecode_of st)) (vm_init (program_of (bytecode_of st))) with
+      | FHalted s => globals s = [VNum (float_of_Z 4)] /\ ostack s = []
+      | _ => False
+      end
+  | CErr _ => False
+  end /\
+  match lx_l 60 ex_locals [[]] with
+  | Some (env, false) => slook (s_ "x") env = Some (VNum (float_of_Z 4)) /\ slook (s_ "y") env = None /\ List.length env = 1%nat
+  | _ => False
+  end.
+Proof. vm_compute. repeat split; try reflexivity; discriminate. Qed.
+
+Example C16_ex_nested_defined :
+  lpfrag ex_nested = true /\
+  match compile ex_nested with
+  | COk st => (st_local_count (csym st) + ldepth ex_nested <= Gen.Opcodes.StackSize)%N /\
+      match vm_run 4000 (program_of (bytecode_of st)) (vm_init (program_of (bytecode_of st))) with
+      | FHalted s => nth_error (globals s) 0 = Some (VNum (float_of_Z 99)) /\ ostack s = []
+      | _ => False
+      end
+  | CErr _ => False
+  end /\
+  match lx_l 80 ex_nested [[]] with
+  | Some (env, false) => slook (s_ "t") env = Some (VNum (float_of_Z 99)) /\ slook (s_ "i") env = Some (VNum (float_of_Z 2)) /\
+                         slook (s_ "x") env = None
+  | _ => False
+  end.
+Proof. vm_compute. repeat split; try reflexivity; discriminate. Qed.
+
 Example C16_ex_straightline_semantics :
   let p := SCons (SDecl (s_ "x") (ENum (float_of_Z 7)))
           (SCons (SDecl (s_ "b") (EBin BLt TNum TNum (EBin BPlus TNum TNum (EVar (s_ "x")) (ENum (float_of_Z 2))) (ENum (float_of_Z 30))))
@@ -559,6 +753,14 @@ Example C16_ex_straightline_semantics :
   | None => False
   end /\ (prog_depth p <= Gen.Opcodes.StackSize)%N.
 Proof. vm_compute. repeat split; try reflexivity. discriminate. Qed.
+
+(* an element store is what plain excludes: a := [1 2]; a[0] = 5 compiles, and is not plain *)
+Example C16_ex_store_not_plain :
+  let p := SCons (SDecl (s_ "a") (EArr (ECons (ENum (float_of_Z 1)) (ECons (ENum (float_of_Z 2)) ENil))))
+          (SCons (SAssign (EIndex (EVar (s_ "a")) (ENum (float_of_Z 0))) (ENum (float_of_Z 5))) SNil) in
+  (match compile p with COk _ => True | CErr _ => False end) /\ plain_slist p = false /\ lfrag_slist p = false /\
+  plain_slist ex_nested = true /\ plain_slist ex_slice = true /\ plain_slist ex_map = true.
+Proof. vm_compute. repeat split; reflexivity. Qed.
 
 Example C16_ex_wf_fragment :
   let p := SCons (SDecl (s_ "x") (ENum (float_of_Z 7)))
